@@ -110,19 +110,15 @@ func (c *simClient) g(st *State) *simGhost { return st.ghost.(*simGhost) }
 // memSnap summarises the tracked cells reachable from a pointer argument so
 // that a pure call on the same object before and after a write differs.
 func memSnap(st *State, ptr *Term) *Term {
-	r := rootOf(ptr)
-	if r.Op != "alloc" {
-		return mk("nosnap", "", nil)
-	}
 	var ks []string
+	if ep, ok := epochOf(st, ptr); ok {
+		ks = append(ks, "epoch="+ep.key)
+	}
 	for k, cl := range st.mem {
 		if strings.HasPrefix(k, "epoch:") {
-			if cl.addr == r {
-				ks = append(ks, "epoch="+cl.val.key)
-			}
 			continue
 		}
-		if cl.addr != nil && cl.val != nil && cl.val.Op != "mapabs" && rootOf(cl.addr) == r {
+		if cl.addr != nil && cl.val != nil && cl.val.Op != "mapabs" && addrUnder(cl.addr, ptr) {
 			ks = append(ks, cl.addr.key+"="+cl.val.key)
 		}
 	}
@@ -146,11 +142,7 @@ func (c *simClient) Call(x *Exec, st *State, fr *Frame, site ssa.CallInstruction
 			return false, nil
 		}
 		if !c.cfg.Keep[name] {
-			for _, a := range args {
-				if a.Op == "alloc" || a.Op == "field" || a.Op == "index" {
-					x.havoc(st, a, mk("site", fr.ctx+"/"+siteID(fr, site), nil, x.curMark()))
-				}
-			}
+			x.havocArgs(st, fr, site, callee, args)
 		}
 		res := x.opaqueResult(fr, site, callee, fnTerm, args)
 		if res != nil {
@@ -161,7 +153,7 @@ func (c *simClient) Call(x *Exec, st *State, fr *Frame, site ssa.CallInstruction
 	if c.cfg.Pure[name] {
 		as := append([]*Term{}, args...)
 		for _, a := range args {
-			if a.Op == "alloc" || a.Op == "field" || a.Op == "index" {
+			if (a.Op == "alloc" || a.Op == "field" || a.Op == "index" || ((a.Op == "param" || a.Op == "free") && isPointerTerm(a))) {
 				as = append(as, memSnap(st, a))
 			}
 		}
